@@ -121,8 +121,20 @@ PLAN.update({
         'fam': 'pubsub',
         'inv': ['C07_Deliveries', 'C07_SingleServerEquivalence',
                 'C07_OwnerHoldsClient', 'C07_CallbackOnOrigin'],
-        'quick': ['ps_imm_quick', 'ps_delay_quick', 'ps_cb_quick'],
-        'thorough': ['ps_imm_quick', 'ps_delay_quick', 'ps_cb_quick'],
+        'quick': ['ps_imm_quick', 'ps_delay_quick', 'ps_delay_disc_quick',
+                  'ps_cb_quick'],
+        'thorough': ['ps_imm_quick', 'ps_delay_quick', 'ps_delay_disc_quick',
+                     'ps_cb_quick', 'ps_delay_rooms_quick',
+                     'ps_imm_cb_quick'],
+    },
+    'C15': {
+        'fam': 'pubsub',
+        'inv': ['C15_ListenerAlive', 'C15_EchoAndJunkChangeNothing',
+                'C07_CallbackOnOrigin'],
+        'quick': ['ps_listener_junk_quick', 'ps_listener_cb_quick',
+                  'ps_listener_fault_quick'],
+        'thorough': ['ps_listener_junk_quick', 'ps_listener_cb_quick',
+                     'ps_listener_fault_quick'],
     },
     'C09': {
         'fam': 'client',
